@@ -26,7 +26,7 @@ def parse(path, rnd):
 FIRST = {2: parse(ROOT + "/seeded/first_run_round2.txt", 2), 3: parse(ROOT + "/seeded/first_run_round3.txt", 3)}
 NOTES3 = {
     ("C11", 2): "missed (the only line printed was evaluator/BinOp, an alarm of the check itself: int.bit_length, introduced by fix "
-                "f28f4e8, was not on the whitelist - corrected); then added: whole-script shapes, more positions",
+                "f28f4e8, was not on the whitelist - corrected); then added: whole-script shapes, more positions, splat arguments",
     ("C11", 1): "caught (sites/* timing; the evaluator/BinOp line printed next to it was an alarm of the check itself, corrected)",
     ("C07", 2): "patch no longer applies: fix 407dfb4 (logical-line joining) rewrote the same code site while the round was being confirmed",
 }
